@@ -19,6 +19,12 @@ def _dispatch(prop: str, tier: str):
     if prop == "C10":
         from . import budget
         return budget.check(tier)
+    if prop == "C12":
+        from . import relcheck
+        return relcheck.check_c12(tier)
+    if prop == "C15":
+        from . import relcheck
+        return relcheck.check_c15(tier)
     if prop in ("C08", "C09"):
         from . import policycheck
         return policycheck.check(prop, tier)
